@@ -15,3 +15,26 @@ NOT_APPLICABLE = {
 }
 for _p in ['C01','C02','C04','C05','C06','C07','C08','C09','C10','C11','C12','C13','C14','C15','C17','C18','C19']:
     NOT_APPLICABLE[_p] = 'harness not landed yet in this round (planned, see DESIGN.md §3/§6); no check is claimed until its quick and thorough commands have run end-to-end'
+CLAIMED['C04'] = (
+    'symbolic execution of _calculate_transition_events + _generic_transitions_to_jumps (real pandas) on symbolic histories; z3 per-path obligations',
+    'For every shape within the bound all site/inner-site histories are covered symbolically; default jumps are proved equal to the '
+    'consecutive-distinct-visited-site pairs, stricter settings proved to only select default jumps consistent with the states, residence m+1 subset of m.',
+    'Trusts pandas groupby/iterrows/DataFrame construction as executed and z3. T, atoms, sites bounded; m concrete per job.',
+    'DESIGN.md §3 C04')
+CLAIMED['C05'] = (
+    'symbolic execution of the matrix/counter/diffusivity/occupancy code on symbolic event tables and state arrays; z3 per-path obligations',
+    'Event/jump tables with symbolic site ids and state arrays with symbolic states; every matrix cell, counter entry, the diffusivity formula '
+    '(linear in the symbolic counts over concrete pool geometry) and the occupancies are proved against counting oracles for all values in the bound. '
+    'One listed known finding (NOSITE rows alias the last site in Transitions.matrix) is reported as KNOWN-FINDING; violations outside that class still fail.',
+    'Trusts the symgem intercepts for np.unique(axis=0)/symbolic fancy assignment (validated by concrete replay of path models), pymatgen '
+    'get_all_distances on concrete sites (cross-checked against brute force), z3. k rows, n sites, T, A bounded.',
+    'DESIGN.md §3 C05')
+CLAIMED['C12'] = (
+    'symbolic execution of Collective._compute (real pandas loops) on symbolic jump tables; z3 per-path obligations',
+    'Jump tables with symbolic atoms, sites, start/stop times and window: the reported pair set is proved equal to the set of close-in-time/space '
+    'pairs of different atoms, each once, and the solo/collective counts are proved consistent, for every value within the bound.',
+    'Trusts the fork-on-< sort_values intercept, the site-distance table taken from the real pymatgen call on the concrete pool sites '
+    '(cross-checked against brute-force minimum image), z3. k <= 3 (4 thorough) rows; concrete pool geometries.',
+    'DESIGN.md §3 C12')
+for _p in ('C04', 'C05', 'C12'):
+    NOT_APPLICABLE.pop(_p, None)
